@@ -91,3 +91,7 @@ Example share_vs_cut_resolver_total_hypotheses :
     | Err _ => False
     end.
 Proof. split; [vm_compute; reflexivity|]. intros []; vm_compute; reflexivity. Qed.
+Example ex_same_payload : same_payload exC exD ex_orig.
+Proof.
+  intros x key v Hx. cbn in Hx. repeat destruct Hx as [<-|Hx]; try contradiction; vm_compute; exact (fun H => H).
+Qed.
